@@ -18,7 +18,7 @@ def glob (n : String) : Option Val :=
   match n with
   | "unix.EINTR" => some (.str "EINTR")
   | "unix.ESRCH" => some (.str "no such process")
-  | _ => (Gen.Consts.table.find? (fun p => p.1 == n)).map (fun p => Val.int (Int.ofNat p.2))
+  | _ => (Gen.Consts.table.find? (fun p => p.1 == n)).map (fun p => Val.int p.2)
 
 def sigtrap : Nat := Gen.Consts.unix_SIGTRAP
 
